@@ -1,7 +1,7 @@
 // C15 finding (soundness): an ill-formed type in a declaration is accepted.  `List` takes one type
 // argument; Ty::check_template only looks at the head name of a type inside a data/codata
 // declaration, and the instantiated signature of `C` is never checked unless `C` is applied.
-// FIXED in /repo by <commit15> (Ty::check_template checks the whole declaration type): this file must be
+// FIXED in /repo by eb42971 (Ty::check_template checks the whole declaration type): this file must be
 // REJECTED now; it is kept as a regression input (an acceptance is a violation).
 data List[A] { Nil, Cons(x: A, xs: List[A]) }
 data Foo { C(x: List) }
